@@ -156,6 +156,7 @@ def run(prop, tier, replay=None):
     coverage = dict(
         states=mc["distinct"] + stats["distinct"], transitions=mc["generated"] + stats["generated"],
         model_states=mc["distinct"], model_transitions=mc["generated"], trace_states=stats["distinct"],
+        spec_expressions_not_evaluated_on_traces=sorted(stats.get("uncovered") or []),
         traces_validated_against_impl=acc, evaluations=total, distinct_nontrivial=len(distinct),
         rule="scripts with a change made inside a watcher call, a watcher-kind change or an injected watch/unwatch failure; distinct by the whole script",
         exhaustive=False, samples=samples,
